@@ -704,6 +704,11 @@ func (sc *segmentController[T, O]) segments(ctx context.Context, reopenClosed bo
 	for i := range sc.lst {
 		if reopenClosed {
 			if err = sc.lst[i].incRef(ctx); err != nil {
+				// Release the segments already pinned in earlier iterations so a
+				// mid-loop incRef failure does not leak refs (see selectSegments).
+				for _, pinned := range r[:i] {
+					pinned.DecRef()
+				}
 				return nil, err
 			}
 		} else {
